@@ -1,9 +1,10 @@
 import VlsModel.Drv.Common
 import VlsModel.Drv.Bolt3
+import VlsModel.Drv.Bolt3Parse
 /- Line-protocol models serving property C04. -/
 namespace VlsModel.Drv.C04
 open VlsModel.Drv
 
-def models : List (String × Model) := [ ("bolt3", Bolt3.model) ]
+def models : List (String × Model) := [ ("bolt3", Bolt3.model), ("wsparse", Bolt3Parse.model) ]
 
 end VlsModel.Drv.C04
